@@ -60,7 +60,7 @@ THEOREMS = [
 LEAN_MODULES = ["PorepyVerif.C21.Props"]
 AUDIT = "PorepyVerif/C21/Audit.lean"
 DRIVER = "PorepyVerif/C21/Driver.lean"
-N = {"quick": 350, "thorough": 10000}
+N = {"quick": 300, "thorough": 8000}
 RULE = ("one grid per case, built by the real code from a recipe: CartGrid 1/2/3-d, TensorGrid with uneven spacing, StructuredTriangleGrid, "
         "StructuredTetrahedralGrid (nodes optionally perturbed), PointGrid, a subdomain (any dimension, incl. 0-d intersection points) of "
         "pp.meshing.cart_grid with 1-2 fractures in 2-d/3-d (interior, touching or lying on the domain boundary, crossing), a subdomain of "
